@@ -222,9 +222,9 @@ func opaque(why string) []SymStr { return []SymStr{{{Opaque: why}}} }
 func (f *Frame) canon(v ssa.Value) string {
 	switch t := v.(type) {
 	case *ssa.Parameter:
-		return f.Fn.Name() + "." + t.Name()
+		return engine.ShortName(f.Fn) + "." + t.Name()
 	case *ssa.FreeVar:
-		return f.Fn.Name() + ".fv." + t.Name()
+		return engine.ShortName(f.Fn) + ".fv." + t.Name()
 	case *ssa.FieldAddr:
 		st := t.X.Type().Underlying().(*types.Pointer).Elem().Underlying().(*types.Struct)
 		return f.canon(t.X) + "." + st.Field(t.Field).Name()
@@ -247,7 +247,7 @@ func (f *Frame) canon(v ssa.Value) string {
 	}
 	pf := ""
 	if v.Parent() != nil {
-		pf = v.Parent().Name()
+		pf = engine.ShortName(v.Parent())
 	}
 	return pf + "." + v.Name()
 }
@@ -415,7 +415,7 @@ func (f *Frame) EvalStr(v ssa.Value) []SymStr {
 	case *ssa.Extract:
 		// first result of a multi-value call: not a string builder in this code base
 	}
-	return opaque(fmt.Sprintf("%T %s in %s", v, v.Name(), f.Fn.Name()))
+	return opaque(fmt.Sprintf("%T %s in %s", v, v.Name(), engine.ShortName(f.Fn)))
 }
 
 func (f *Frame) parentFrame() *Frame {
@@ -443,7 +443,7 @@ func (f *Frame) fromCallers(p *ssa.Parameter) []SymStr {
 	seen := map[string]bool{}
 	callers := f.S.P.CallersOf(f.Fn)
 	if len(callers) == 0 {
-		return opaque("parameter " + p.Name() + " of " + f.Fn.Name() + " has no caller")
+		return opaque("parameter " + p.Name() + " of " + engine.ShortName(f.Fn) + " has no caller")
 	}
 	for _, cs := range callers {
 		arg := engine.ArgForParam(cs.Common(), f.Fn, idx)
